@@ -42,9 +42,9 @@ func yyPerms() (perms []string, has func(string) bool) {
 }
 
 // For an arbitrary permission list and arbitrary old/new integer values:
-//  - without "pw" a remote update changes nothing and calls no callback;
-//  - without "pr" the value is never stored (stays nil) and the getter reveals nothing;
-//  - with the permission the update takes effect (so the guards are not vacuous).
+//   - without "pw" a remote update changes nothing and calls no callback;
+//   - without "pr" the value is never stored (stays nil) and the getter reveals nothing;
+//   - with the permission the update takes effect (so the guards are not vacuous).
 func Harness_C11_q_read_write_perms() {
 	perms, has := yyPerms()
 	c := NewInt("yy")
